@@ -425,10 +425,58 @@ fn push_storm(a: &Args, rep: &mut Report, r: &mut Rng) {
     }
 }
 
+/// Drains that are abandoned: the consumer reads only some of the values (or none, or only the rate) and returns. The
+/// cycle ends all the same: later drains yield exactly what was pushed since, at the right rate.
+fn abandoned_drains(a: &Args, rep: &mut Report, r: &mut Rng) {
+    let trials = a.budget(300, 30_000);
+    for _ in 0..trials {
+        let cap = 2 + r.usize(8);
+        let res = AtomicSamplingReservoir::new(cap);
+        let mut next = 1.0f64;
+        let mut trace: Vec<String> = Vec::new();
+        let mut bad = None;
+        for c in 0..(3 + r.usize(5)) {
+            let n = r.usize(cap + 3);
+            let mut pushed = Vec::new();
+            for _ in 0..n {
+                res.push(next);
+                pushed.push(next);
+                next += 1.0;
+            }
+            let take = match r.below(3) {
+                0 => usize::MAX,       // read everything
+                1 => r.usize(cap + 1), // read a few values, drop the rest
+                _ => 0,                // look at the rate only
+            };
+            let mut got: Vec<f64> = Vec::new();
+            let mut rate = 0.0;
+            let mut len = 0;
+            res.consume(|d| {
+                rate = d.sample_rate();
+                len = d.len();
+                got.extend(d.take(take));
+            });
+            trace.push(format!("cycle {}: pushed {}, drain len {}, rate {}, consumer read {}", c, n, len, rate, got.len()));
+            let exp_len = n.min(cap);
+            let exp_rate = if n == 0 { 1.0 } else { exp_len as f64 / n as f64 };
+            let stale = got.iter().any(|v| !pushed.contains(v));
+            if len != exp_len || (n > 0 && (rate - exp_rate).abs() > 1e-12) || stale {
+                bad = Some(format!("cycle {}: {} values pushed since the previous drain (capacity {}), drain reports len {} rate {} and yielded {:?}", c, n, cap, len, rate, got));
+                break;
+            }
+        }
+        rep.case(mix(cap as u64 + 500, fnv(format!("{:?}", trace).as_bytes())), true);
+        if let Some(b) = bad {
+            rep.violation("C16:cycle-not-ended-by-abandoned-drain", jo! {"what" => "after a drain that its consumer did not read to the end, a later drain does not cover exactly the values pushed since the previous drain", "detail" => b, "trace" => J::A(trace.iter().map(|t| J::s(t.clone())).collect())});
+        }
+    }
+}
+
 fn run_consumers(a: &Args) -> Report {
     use std::sync::mpsc;
     let mut rep = Report::new("C16", &a.leg, a.seed);
     let mut r = Rng::new(a.shard_seed());
+    abandoned_drains(a, &mut rep, &mut r);
     push_inside_closure(a, &mut rep, &mut r);
     push_storm(a, &mut rep, &mut r);
     let trials = a.budget(60, 3000);
